@@ -12,6 +12,8 @@ Obligations
              planted findings == model `analysed` / `emit`
 P_impl       in-process: every region is live (real getcode) in >= 1 configuration returned by the real getConfigs;
              CLI: every region's planted arrayIndexOutOfBounds is reported when the configurations fit --max-configs;
+             the same UNDER -U: every region of the Lean specification `Items.reach [] undefs t` (= live in some configuration
+             that leaves the -U macros undefined, theorem reach_spec; evaluated through the driver) must be live / reported;
              with -D X every checked configuration defines X, with -U X none does.
 """
 import json, os, re, subprocess
@@ -21,6 +23,7 @@ ID = "C12"
 LEVEL = "proof"
 RULE = ("cases = directive lists printed as C files: (a) trees of the property's family (nested #ifdef/#ifndef/#if defined()/"
         "#if !defined()/#else over pairwise distinct macros, one planted out-of-bounds write per region), (b) the same with -D/-U, "
+        "(b') family trees with -U on their own macros, half of them built around `#ifdef X .. #else <nested conditionals> #endif` with -U X, "
         "(c) repeated macros, #define inside, unbalanced nesting; non-trivial = at least two conditionals and one region; "
         "distinct = canonical op text")
 EXPLANATION = ("Lean theorems about an executable copy of getConfigs/cfg/hasDefine/isUndefined and of the selection loop of "
@@ -38,7 +41,8 @@ THEOREMS = ["Cppcheck.Configs.every_region_covered_of_safe", "Cppcheck.Configs.r
             "Cppcheck.Configs.safe_repaired", "Cppcheck.Configs.every_region_covered_repaired",
             "Cppcheck.Configs.analysed_all_within_budget", "Cppcheck.Configs.covered_within_budget",
             "Cppcheck.Configs.D_in_every_config", "Cppcheck.Configs.U_in_no_extracted_config", "Cppcheck.Configs.U_in_no_config",
-            "Cppcheck.Configs.U_in_no_config_D", "Cppcheck.Configs.U_effective", "Cppcheck.Configs.D_effective"]
+            "Cppcheck.Configs.U_in_no_config_D", "Cppcheck.Configs.U_effective", "Cppcheck.Configs.D_effective",
+            "Cppcheck.Configs.reach_spec"]
 MODULES = ["Cppcheck.Props.C12"]
 
 CPLUSPLUS = "__cplusplus"
@@ -129,7 +133,7 @@ def kcls(k, fl=None):
     return "pos" if k in "dD" else ("neg" if k == "n" or fl[1] else "nd")
 
 
-def loss(items, fl=None):
+def loss(items, fl=None, undefs=()):
     """surplus pops of the fold: one per conditional with #else that pushes no #ifndef candidate (none once fixElse is in)"""
     fl = FLAGS if fl is None else fl
     if fl[0]:
@@ -137,7 +141,8 @@ def loss(items, fl=None):
     n = 0
     for it in items:
         if it[0] == "c":
-            n += loss(it[3], fl) + (loss(it[4], fl) if it[4] is not None else 0) + (1 if (it[4] is not None and kcls(it[1], fl) != "neg") else 0)
+            n += loss(it[3], fl, undefs) + (loss(it[4], fl, undefs) if it[4] is not None else 0) + \
+                (1 if (it[4] is not None and (kcls(it[1], fl) != "neg" or it[2] in undefs)) else 0)
     return n
 
 
@@ -145,14 +150,17 @@ def drop(stk, n):
     return stk[:max(0, len(stk) - n)]
 
 
-def predict(items, fl=None):
+def predict(items, fl=None, undefs=()):
     """known-finding classifier, independent of the Lean model: for every region of a family tree (distinct macros, no -D/-U)
     the defect class that loses it, or None.  Mirrors the decidable predicate `safe` of Model/Configs.lean (checked against
     it through the driver on every run):
       F15  a macro the region needs was popped off configs_if by an earlier `#if.. #else #endif` (kind != ifndef) nested in
            the same top-level conditional
-      F16  the region sits in / below a `#if !defined(X)` conditional and needs a further macro (X is pushed for the wrong branch)"""
+      F16  the region sits in / below a `#if !defined(X)` conditional and needs a further macro (X is pushed for the wrong branch)
+    `undefs`: macros given by -U; a conditional on such a macro pushes the empty entry for both branches (only regions that are
+    reachable under -U are ever looked up)."""
     fl = FLAGS if fl is None else fl
+    undefs = set(undefs)
     status = {}
     ph = [None] if fl[0] else []
 
@@ -175,20 +183,24 @@ def predict(items, fl=None):
                 continue
             _, k, m, thn, els = it
             c = kcls(k, fl)
-            if c == "pos":
+            if m in undefs:
+                walk(thn, stk + [None], P, verdict)
+                if els is not None:
+                    walk(els, drop(stk, loss(thn, fl, undefs)) + ph, P, verdict)
+            elif c == "pos":
                 walk(thn, stk + [m], P + [(m, "push")], check(stk + [m], P + [(m, "push")]))
                 if els is not None:
-                    walk(els, drop(stk, loss(thn, fl)) + ph, P, verdict)
+                    walk(els, drop(stk, loss(thn, fl, undefs)) + ph, P, verdict)
             elif c == "neg":
                 walk(thn, stk + [None], P, verdict)
                 if els is not None:
-                    s2 = drop(stk, loss(thn, fl)) + [m]
+                    s2 = drop(stk, loss(thn, fl, undefs)) + [m]
                     walk(els, s2, P + [(m, "push")], check(s2, P + [(m, "push")]))
             else:
                 walk(thn, stk + [m], P, verdict)
                 if els is not None:
-                    walk(els, drop(stk, loss(thn, fl)) + ph, P + [(m, "nd")], check(stk + [m], P + [(m, "nd")]))
-            stk = drop(stk, loss([it], fl))
+                    walk(els, drop(stk, loss(thn, fl, undefs)) + ph, P + [(m, "nd")], check(stk + [m], P + [(m, "nd")]))
+            stk = drop(stk, loss([it], fl, undefs))
 
     walk(items, [], [], None)
     return status
@@ -264,6 +276,50 @@ def gen_defines(rng, ms):
     for _ in range(rng.choice([0, 0, 1, 2])):
         us.append(rng.choice(pool))
     return ";".join(ds), sorted(set(us))
+
+
+def conds_with_else(items):
+    out = []
+    for it in items:
+        if it[0] == "c":
+            if it[4] is not None:
+                out.append(it[2])
+            out += conds_with_else(it[3]) + (conds_with_else(it[4]) if it[4] is not None else [])
+    return out
+
+
+def tree_under_U(rng, size=None):
+    """family tree together with a -U set taken from its own macros; half of the cases are built around
+    `#ifdef X ... #else <nested conditionals> #endif` (resp. `#ifndef X <nested conditionals> #endif`) with -U X"""
+    size = size or rng.choice([2, 3, 4, 6, 8])
+    if rng.random() < 0.5:
+        t = family_tree(rng, size)
+        ms = macros(t)
+        if not ms:
+            return t, []
+        pref = conds_with_else(t)
+        us = set()
+        for _ in range(rng.choice([1, 1, 2])):
+            us.add(rng.choice(pref) if pref and rng.random() < 0.7 else rng.choice(ms))
+        return t, sorted(us)
+    names = list(NAMEPOOL)
+    rng.shuffle(names)
+    x = names.pop()
+    budget = [size]
+    live = gen_tree(rng, names, budget, 1, "ddnDN", 0.5, 0.6)          # the branch that is active under -U x
+    while not macros(live):
+        live = gen_tree(rng, names, [max(2, size)], 1, "ddnDN", 0.5, 0.6)
+    dead = gen_tree(rng, names, [rng.choice([0, 1, 2])], 1, "ddnDN", 0.5, 0.6)
+    k = rng.choice("dDdDnN")
+    node = ["c", k, x, dead, live] if k in "dD" else ["c", k, x, live, dead if rng.random() < 0.6 else None]
+    items = [node]
+    if rng.random() < 0.5:
+        items = [["r", None]] + items
+    if rng.random() < 0.5:
+        items.append(["c", rng.choice("dn"), names.pop(), [["r", None]], None])
+    if rng.random() < 0.4:      # nest the whole thing
+        items = [["c", rng.choice("ddnD"), names.pop(), items, None if rng.random() < 0.6 else [["r", None]]], ["r", None]]
+    return number(items), [x]
 
 
 def malformed(rng):
@@ -406,6 +462,12 @@ def run_gc(ctx, res, exe, drv, cases, name):
     def nontriv(op, out):
         return sum(1 for w in op.split()[5:] if w[0] in "dnDN") >= 2 and " r" in op
     core.correspond(ctx, res, name, ops, impl, model, nontrivial=nontriv)
+    need = [c for c in cases if c.get("family") and c.get("undefs") and not c.get("ud") and c.get("tree") is not None]
+    if need:
+        rops = ["reach - %s %s" % (",".join(core.hx(u) for u in c["undefs"]), " ".join(c["words"])) for c in need]
+        rc3, ro, err3 = core.run_lines(drv, [], rops, timeout=600)
+        for c, o in zip(need, ro):
+            c["reach"] = set(int(x) for x in o[2:].split(".")) if o.startswith("R ") and o[2:] not in ("-", "?") else set()
     return ops, [parse_gc(l) for l in impl], impl, model
 
 
@@ -423,25 +485,29 @@ def p_impl_inprocess(ctx, res, cases, parsed, impl_lines):
             if bad:
                 report(res, "-U %s but getConfigs returned configuration %r that defines it" % (bad[0], cf),
                        dict(kind="inprocess", words=c["words"], ud=ud, undefs=list(undefs), cfgs=cfgs), None)
-        if not c.get("family") or lives is None or ud or undefs:
+        if not c.get("family") or lives is None or ud:
             continue
         t = c["tree"]
-        allr = set(regions(t))
+        if len(set(macros(t))) != len(macros(t)):
+            continue
+        # regions that some configuration consistent with -U contains: the Lean specification `Items.reach` (driver)
+        allr = c["reach"] if undefs else set(regions(t))
         covered = set().union(*lives) if lives else set()
         lost = sorted(allr - covered)
-        pred = predict(t)
-        res.count("family-trees")
+        pred = predict(t, undefs=undefs)
+        res.count("family-trees" + ("-U" if undefs else ""))
         if lost:
-            res.count("family-trees-with-lost-region")
+            res.count("family-trees-with-lost-region" + ("-U" if undefs else ""))
         for r in allr:
             if pred.get(r) and r not in lost:
                 res.count("classifier-overpredicts")
         for r in lost:
             key = pred.get(r)
             res.count("lost:" + str(key))
-            report(res, "region R%d is live in none of the %d configurations returned by Preprocessor::getConfigs (%s)\n%s" %
-                   (r, len(cfgs), ", ".join(repr(x) for x in cfgs), "\n".join(describe(t))),
-                   dict(kind="inprocess", words=c["words"], ud="", undefs=[], region=r, cfgs=cfgs, classified=key,
+            report(res, "%sregion R%d is live in none of the %d configurations returned by Preprocessor::getConfigs (%s)\n%s" %
+                   (("with -U%s (region reachable when these macros are undefined): " % ",".join(undefs)) if undefs else "", r, len(cfgs),
+                    ", ".join(repr(x) for x in cfgs), "\n".join(describe(t))),
+                   dict(kind="inprocess", words=c["words"], ud="", undefs=list(undefs), region=r, cfgs=cfgs, classified=key,
                         replay_cmd="./check.py C12 --replay <this file>"), key)
 
 
@@ -502,6 +568,8 @@ def cli_cases(ctx, res, exe, drv, todo):
         sels.append("sel %d %d 0 %s %s" % (1 if o.get("force") else 0, o.get("maxc") or 0, core.hx(o.get("ud", "")), ",".join(core.hx(c) for c in cfgs)))
     rc, smodel, err = core.run_lines(drv, [], sels)
     rc, simpl, err = core.run_lines(exe, [], sels)
+    rops = ["reach - %s %s" % (",".join(core.hx(u) for u in o.get("undefs", [])) or "-", " ".join(w)) for w, (_, o) in zip(words, todo)]
+    rc, reach_out, err = core.run_lines(drv, [], rops)
     details = []
     for k, (t, opt) in enumerate(todo):
         ud, undefs = opt.get("ud", ""), opt.get("undefs", [])
@@ -541,9 +609,11 @@ def cli_cases(ctx, res, exe, drv, todo):
                 if u in ns and u not in dnames:
                     report(res, "-U%s but the analysed configuration %r defines it" % (u, c),
                            dict(kind="cli", words=words[k], args=args, checked=checked), None)
-        if not ud and not undefs and len(set(macros(t))) == len(macros(t)) and (opt.get("force") or len(cfgs) <= maxc):
-            pred = predict(t)
-            for r in sorted(set(regions(t)) - regs):
+        if not ud and len(set(macros(t))) == len(macros(t)) and (opt.get("force") or len(cfgs) <= maxc):
+            pred = predict(t, undefs=undefs)
+            ro = reach_out[k]
+            reach = set(int(x) for x in ro[2:].split(".")) if ro.startswith("R ") and ro[2:] not in ("-", "?") else set()
+            for r in sorted(reach - regs):
                 key = pred.get(r)
                 res.count("cli-lost:" + str(key))
                 report(res, "planted finding of region R%d is not reported by `cppcheck %s` although the %d configurations fit the budget %d\n%s" %
@@ -573,9 +643,9 @@ def run(ctx, res):
     if cases:
         ops, parsed, impl, model = run_gc(ctx, res, exe, drv, cases, "getConfigs-corpus")
         p_impl_inprocess(ctx, res, cases, parsed, impl)
-        for c, pr in zip(corpus, parsed):
+        for c, cc, pr in zip(corpus, cases, parsed):
             if "expect_lost" in c and pr and pr[1] is not None:
-                lost = sorted(set(regions(c["tree"])) - set().union(*pr[1]))
+                lost = sorted((cc["reach"] if cc.get("undefs") else set(regions(c["tree"]))) - set().union(*pr[1]))
                 res.oblig("corpus:%s" % c.get("name", "?"), lost == c["expect_lost"] or not lost, "correspondence",
                           "" if lost == c["expect_lost"] or not lost else "witness now loses %s (recorded %s)" % (lost, c["expect_lost"]))
 
@@ -613,6 +683,15 @@ def run(ctx, res):
     ops, parsed, impl, model = run_gc(ctx, res, exe, drv, cases, "getConfigs-D-U")
     p_impl_inprocess(ctx, res, cases, parsed, impl)
 
+    # ---- C1 + P_impl: coverage under -U (macros of the tree itself are undefined by the user) ----------------------------
+    cases = []
+    for i in range(1500 if thorough else 350):
+        t, us = tree_under_U(rng)
+        cases.append(dict(words=flatten(t), tree=t, ud="", undefs=us, family=True, origin="under-U"))
+        res.count("under-U:undefs=%d" % len(us))
+    ops, parsed, impl, model = run_gc(ctx, res, exe, drv, cases, "getConfigs-under-U")
+    p_impl_inprocess(ctx, res, cases, parsed, impl)
+
     # ---- C1: outside the family (repeated macros, #define, malformed nesting) ---------------------------------------
     cases = []
     for i in range(1200 if thorough else 300):
@@ -646,6 +725,11 @@ def run(ctx, res):
             opt["force"] = True
         elif k < 0.7:
             pass                                    # default budget 12
+        elif k < 0.85:
+            t, us = tree_under_U(rng, rng.choice([2, 3, 4]))
+            opt.update(undefs=us, maxc=rng.choice([64, 64, 0]))
+            if not opt["maxc"]:
+                del opt["maxc"]; opt["force"] = True
         else:
             ud, undefs = gen_defines(rng, macros(t))
             # what cmdlineparser composes from the -D arguments: a piece without `=` gets `=1`
@@ -658,7 +742,7 @@ def run(ctx, res):
         todo.append((t, opt))
     for c in load_corpus():
         if c.get("tree") and c.get("expect_lost") is not None:
-            todo.append((c["tree"], dict(maxc=64)))
+            todo.append((c["tree"], dict(maxc=64, undefs=c.get("undefs", []))))
     details = cli_cases(ctx, res, exe, drv, todo)
     res.oblig("correspondence:cli-selection", not details, "correspondence",
               "" if not details else "%d of %d CLI runs differ from the model; first: %s" % (len(details), len(todo), details[0]))
@@ -680,6 +764,7 @@ def replay(ctx, res, rp):
     rc, impl, err = core.run_lines(exe, [], [op, "src " + " ".join(words)])
     rc, model, err = core.run_lines(drv, [], [op])
     print(core.unhx(impl[1]).decode("latin-1"))
+    print("options: -D %r -U %r" % (rp.get("ud", ""), rp.get("undefs", [])))
     print("impl : " + impl[0]); print("model: " + model[0])
     cfgs, lives = parse_gc(impl[0])
     print("configurations: %s" % cfgs)
